@@ -6,7 +6,7 @@ from hypothesis import strategies as st
 
 from ECAgent.Core import Model, SystemNotFoundError
 from vf.engine import Violation, InvalidCase
-from vf.fixtures import RecSystem, RecCollector, check, expect_raises
+from vf.fixtures import RecSystem, RecCollector, check, expect_raises, sized_lists
 
 PROPERTY = "C01"
 BUDGET = {"quick": 2400, "thorough": 6000}
@@ -50,12 +50,12 @@ def _bulk_case(draw):
     ops = [{"op": "add", "id": i, "prio": draw(prio), "kind": draw(st.sampled_from(["sys", "sys", "coll", "colldef"]))}
            for i in draw(st.permutations(list(range(POOL))))[:n]]
     ops.append({"op": "step", "n": 1})
-    ops += draw(st.lists(_op(), min_size=0, max_size=25))
+    ops += draw(sized_lists(_op(), 0, 25))
     return {"ops": ops}
 
 
 def strategy(tier):
-    hist = st.builds(lambda ops: {"ops": ops}, st.lists(_op(), min_size=1, max_size=40))
+    hist = st.builds(lambda ops: {"ops": ops}, st.one_of(st.lists(_op(), min_size=1, max_size=40), sized_lists(_op(), 5, 40)))
     return st.one_of(hist, hist, st.composite(_bulk_case)(), st.composite(_bulk_case)(), st.composite(_perm_case)())
 
 
